@@ -10,7 +10,15 @@ Per run:
       generator holds: spectrum == sum of hypergeometric projections of the usable SNPs, total == number of usable
       SNPs, chunk spectra add up, bootstraps are sums of chunk spectra, subsampling uses exactly k individuals,
       S / pi / theta_W / theta_L / Tajima's D / Fst == the same from the genotype matrix (pairwise comparison of
-      chromosomes, Weir & Cockerham from per-population frequencies)."""
+      chromosomes, Weir & Cockerham from per-population frequencies);
+  (3) the statistics are functions OF the spectrum (the model's stat_* are pure): in every case, for mask_corners False and True,
+      polarised and folded, at the requested projection and at full size, S / pi / Watterson_theta / Tajima_D / theta_L / Zengs_E
+      (one population) or S / Fst (several) are evaluated on ONE spectrum object in an order drawn per case (every method first in
+      turn, then all of them a second time in another order) and each alone on a freshly built object; after every call the
+      spectrum-level clauses are re-evaluated on that object: data and mask bit-identical to before, total == number of usable
+      SNPs (mask_corners=False) and unchanged, equal to the sum of the chunk spectra (data, mask, total), repeated evaluation gives
+      the same value, the value equals direct counting for both mask_corners settings.  A fail-closed reading of the source of the
+      statistic methods (`stat_source_obligation`) states which of them touch `self` at all."""
 import json, math, os, itertools
 from fractions import Fraction
 import numpy as np
@@ -582,14 +590,252 @@ def predicates(ctx, c, r):
                 ctx.count('stat_' + name)
                 if not g:
                     viol('%s from the %s spectrum is %r, from the genotype matrix %r' % (name, tag, got, want), 'stats:%s-ne-direct' % name)
+    stat_state_predicates(ctx, c, r, entries, viol)
     return nviol
+
+# ------------------------------------------------------------------------------------------------
+# the statistics leave the spectrum as it was
+
+STATS_1 = ['S', 'pi', 'thetaW', 'D', 'thetaL', 'E']
+STATS_N = ['S', 'Fst']
+STAT_PY = {'S': 'S', 'pi': 'pi', 'thetaW': 'Watterson_theta', 'D': 'Tajima_D', 'thetaL': 'theta_L', 'E': 'Zengs_E', 'Fst': 'Fst'}
+
+def stat_seqs_for(c, rng):
+    """call sequences: per (projection kind, mask_corners, polarized) one order with a different method first each time, followed
+    by every method a second time in another order; `alone`: each method on a freshly built object"""
+    methods = STATS_1 if len(c['pop_ids']) == 1 else STATS_N
+    kinds = ['proj'] + (['full'] if c['full'] and list(c['full']) != list(c['projections']) else [])
+    out = []
+    i = rng.randrange(len(methods))
+    for kind in kinds:
+        for mc in (False, True):
+            for pol in (True, False):
+                first = methods[i % len(methods)]; i += 1
+                rest = [m for m in methods if m != first]; rng.shuffle(rest)
+                second = list(methods); rng.shuffle(second)
+                out.append({'kind': kind, 'mask_corners': mc, 'polarized': pol, 'calls': [first] + rest + second, 'alone': list(methods)})
+    return out
+
+def same_value(a, bb):
+    return a == bb or (a is None and bb is None)
+
+def stat_state_predicates(ctx, c, r, entries, viol):
+    """clause by clause, on what the real code reported after every statistic call (see module docstring (3))"""
+    t = c['truth']
+    sub = dict(c['subsample']) if c['subsample'] else None
+    seen = ctx.__dict__.setdefault('_c13_stat_reported', set())
+    direct = {}
+    for rec in r.get('stat_seqs') or []:
+        kind, mc, pol = rec['kind'], rec['mask_corners'], rec['polarized']
+        projs = c['full'] if kind == 'full' else c['projections']
+        tag = '%s spectrum at %s, mask_corners=%s' % ('polarised' if pol else 'folded', 'full size' if kind == 'full' else 'the requested projection', mc)
+        cfg = [x for x in c['stat_seqs'] if (x['kind'], x['mask_corners'], x['polarized']) == (kind, mc, pol)][0]
+        ctx.count('stat sequence: %s mask_corners=%s %s' % (kind, mc, 'polarised' if pol else 'folded'))
+        ctx.count('stat sequence first call: ' + cfg['calls'][0])
+        problems = []        # (key, text, call sequence up to the failing call)
+        if 'error' in rec:
+            problems.append(('stats:sequence-raises', 'building the %s raised %s' % (tag, rec['error']), []))
+        else:
+            n = 0
+            for e in r['dd']:
+                calls = {p: rc + ac for p, rc, ac in e['calls']}
+                if all(calls[p] >= m for p, m in zip(c['pop_ids'], projs)) and (not pol or e['out'] in e['seg']):
+                    n += 1
+            b0 = rec['before']
+            tol_n = 1e-10 * max(1, n)
+            # total == number of usable SNPs is a statement about fs.sum() whenever no SNP sits under the mask the spectrum was
+            # built with: always for polarised spectra with mask_corners=False; a folded spectrum comes out of fold() with its
+            # 'seen in none' corner masked whatever mask_corners says, and then only the entries (data_total) add up to n
+            nothing_hidden = not any(m_ and x != 0 for m_, x in zip(rec['fs']['mask'], rec['fs']['data']))
+            if nothing_hidden:
+                ctx.count('stat sequence on a spectrum with no SNP under the mask (total == usable SNPs re-checked after every call)')
+            if pol and not mc and not nothing_hidden:
+                problems.append(('from_data_dict:unmasked-spectrum-has-masked-snps', 'polarised spectrum built with mask_corners=False has SNPs under its mask', []))
+            def clauses(a):
+                out = []
+                if not a['data_same']:
+                    out.append('the data of the spectrum changed')
+                if not a['mask_same']:
+                    newly = sum(1 for x, y in zip(a.get('mask', []), rec['fs']['mask']) if x and not y)
+                    out.append('the mask of the spectrum changed (%d entries newly masked)' % newly)
+                if not a['meta_same']:
+                    out.append('shape / folded / pop_ids of the spectrum changed')
+                if not same_value(a['total'], b0['total']):
+                    out.append('the total of the spectrum went from %r to %r' % (b0['total'], a['total']))
+                if nothing_hidden and n > 0 and not (a['total'] is not None and abs(a['total'] - n) <= tol_n):
+                    out.append('the total of the spectrum is %r but %d SNPs are usable' % (a['total'], n))
+                if a['data_total'] is None or abs(a['data_total'] - n) > tol_n:
+                    out.append('the entries of the spectrum add up to %r but %d SNPs are usable' % (a['data_total'], n))
+                if 'chunk_mask_same' in a:
+                    if a['chunk_data_dev'] > 1e-11:
+                        out.append('the spectrum no longer equals the sum of the chunk spectra (relative dev %.3g)' % a['chunk_data_dev'])
+                    if not a['chunk_mask_same']:
+                        out.append('the mask of the spectrum differs from the mask of the sum of the chunk spectra')
+                    ct = a['chunk_total']
+                    if (ct is None) != (a['total'] is None) or (ct is not None and abs(ct - a['total']) > 1e-10 * max(1.0, abs(ct))):
+                        out.append('the total of the spectrum is %r, the total of the sum of the chunk spectra %r' % (a['total'], ct))
+                return out
+            bad0 = clauses(b0)
+            if bad0:
+                problems.append(('from_data_dict:spectrum-clauses-fail-before-any-statistic', '; '.join(bad0), []))
+            first = {}
+            intact = not bad0
+            for k, a in enumerate(rec['calls']):
+                seq = cfg['calls'][:k + 1]
+                if intact:
+                    # the first call after which a clause fails is the one reported; what follows runs on an altered spectrum
+                    ctx.count('stat call re-checked: ' + a['name'])
+                    badk = clauses(a)
+                    if badk:
+                        intact = False
+                        problems.append(('stats:%s-changes-spectrum' % a['name'], '; '.join(badk), seq))
+                if a['name'] in first:
+                    if intact and not (same_value(a['value'], first[a['name']]['value']) and (a['error'] is None) == (first[a['name']]['error'] is None)):
+                        problems.append(('stats:%s-second-evaluation-differs' % a['name'], '%s() gives %r, the earlier evaluation on the same spectrum gave %r' % (
+                            STAT_PY[a['name']], a['value'] if a['error'] is None else a['error'], first[a['name']]['value'] if first[a['name']]['error'] is None else first[a['name']]['error']), seq))
+                else:
+                    first[a['name']] = a
+            for a in rec['alone']:
+                ctx.count('stat call alone on a fresh spectrum re-checked: ' + a['name'])
+                bada = clauses(a)
+                if bada:
+                    problems.append(('stats:%s-changes-spectrum' % a['name'], '; '.join(bada), [a['name']]))
+                if not a['fresh_same_as_first']:
+                    problems.append(('from_data_dict:not-reproducible', 'from_data_dict called twice on the same dictionary gives different spectra', [a['name']]))
+                f = first.get(a['name'])
+                if f is not None and not (same_value(a['value'], f['value']) and (a['error'] is None) == (f['error'] is None)):
+                    problems.append(('stats:%s-depends-on-earlier-calls' % a['name'], '%s() gives %r on a freshly built spectrum and %r on an equal spectrum after the calls %r' % (
+                        STAT_PY[a['name']], a['value'], f['value'], cfg['calls'][:cfg['calls'].index(a['name'])]), cfg['calls'][:cfg['calls'].index(a['name']) + 1]))
+            # the values against direct counting, for both mask_corners settings (the corner entries carry weight 0 in every statistic)
+            if list(projs) == list(c['full'] or []) and sub is None and not t['inconsistent']:
+                if pol not in direct:
+                    direct[pol] = direct_stats(c, entries, pol)
+                for name, want in direct[pol].items():
+                    if not pol and name == 'thetaL':
+                        continue
+                    got = first.get(name, {}).get('value')
+                    if got is None or abs(got - want) > 1e-10 * max(1.0, abs(want)):
+                        problems.append(('stats:%s-ne-direct' % name, '%s is %r, from the genotype matrix %r' % (name, got, want), [name]))
+                    ctx.count('stat_%s mask_corners=%s' % (name, mc))
+        ctx.obligation('case %d: %s: after every statistic call (order %s) data, mask, total, chunk-sum identity unchanged; repeated evaluation gives the same value' % (
+            c['id'], tag, ' '.join(cfg['calls'])), not problems, 'predicate', '; '.join(p_[1] for p_ in problems[:3])[:400])
+        for key, text, seq in problems:
+            if key in seen:
+                continue
+            seen.add(key)
+            pycalls = ['fs.%s()' % STAT_PY[x] for x in seq]
+            viol('%s: after %s: %s' % (tag, ', '.join(pycalls) if pycalls else 'construction (no statistic called)', text), key,
+                 {'spectrum': {'kind': kind, 'projections': projs, 'mask_corners': mc, 'polarized': pol}, 'call_sequence': pycalls,
+                  'full_sequence': cfg['calls'], 'reported': {k_: v for k_, v in rec.items() if k_ != 'fs'}})
+
+# fail-closed reading of the statistic methods: which of them touch `self` at all.  The model's stat_* are pure functions of
+# (data, mask); the only permitted effect is S's  save a COPY of the mask / mask the corners / restore  protocol.
+
+def _is_self_attr(node, attr=None):
+    import ast
+    return isinstance(node, ast.Attribute) and isinstance(node.value, ast.Name) and node.value.id == 'self' and (attr is None or node.attr == attr)
+
+def _root_is_self(node):
+    import ast
+    while isinstance(node, (ast.Attribute, ast.Subscript, ast.Starred)):
+        node = node.value
+    return isinstance(node, ast.Name) and node.id == 'self'
+
+def _first_attr(node):
+    """the attribute taken directly from self in a chain self.a[...].b ... (None: self itself or self[...])"""
+    import ast
+    while isinstance(node, (ast.Attribute, ast.Subscript)):
+        if _is_self_attr(node):
+            return node.attr
+        node = node.value
+    return None
+
+def _pure_stmts(stmts, allowed_calls, why):
+    """no statement writes through self, aliases self / its buffers, hands bare self to a call, or calls a method of self
+    outside `allowed_calls`"""
+    import ast
+    ok = True
+    for st in stmts:
+        parents = {}
+        for node in ast.walk(st):
+            for ch in ast.iter_child_nodes(node):
+                parents[ch] = node
+        for node in ast.walk(st):
+            if isinstance(node, (ast.Assign, ast.AugAssign, ast.AnnAssign, ast.Delete, ast.For, ast.With, ast.NamedExpr)):
+                tg = node.targets if isinstance(node, (ast.Assign, ast.Delete)) else [getattr(node, 'target', None)] if not isinstance(node, ast.With) else [i.optional_vars for i in node.items]
+                flat = []
+                for t_ in tg:
+                    flat += list(ast.walk(t_)) if t_ is not None else []
+                if any(_root_is_self(t_) for t_ in flat if isinstance(t_, (ast.Attribute, ast.Subscript, ast.Name))):
+                    why.append('line %d writes through self' % node.lineno); ok = False
+                val = getattr(node, 'value', None)
+                if val is not None and isinstance(val, (ast.Name, ast.Attribute, ast.Subscript)) and _root_is_self(val) and \
+                        _first_attr(val) not in ('Npop', 'sample_sizes', 'shape', 'ndim', 'folded'):     # computed properties / immutables
+                    why.append('line %d binds a name to (a part of) self without copying' % node.lineno); ok = False
+            if isinstance(node, ast.Name) and node.id == 'self' and isinstance(node.ctx, ast.Load):
+                par = parents.get(node)
+                if not isinstance(par, (ast.Attribute, ast.Subscript, ast.BinOp, ast.UnaryOp, ast.Compare)):
+                    why.append('line %d hands self itself to %s' % (node.lineno, type(par).__name__)); ok = False
+            if isinstance(node, ast.Call):
+                if any(k_.arg == 'out' for k_ in node.keywords):
+                    why.append('line %d: out= keyword' % node.lineno); ok = False
+                f = node.func
+                if isinstance(f, ast.Attribute) and _root_is_self(f.value):
+                    if not (isinstance(f.value, ast.Name) and f.attr in allowed_calls):
+                        why.append('line %d calls self...%s()' % (node.lineno, f.attr)); ok = False
+            if isinstance(node, (ast.Global, ast.Nonlocal, ast.Try, ast.While, ast.Lambda, ast.FunctionDef, ast.ClassDef)):
+                why.append('line %d: %s not read by this obligation' % (node.lineno, type(node).__name__)); ok = False
+    return ok
+
+def stat_source_obligation(ctx):
+    import ast
+    path = os.path.join(lib.REPO, 'dadi', 'Spectrum_mod.py')
+    name = ('source of Spectrum.S / pi / Watterson_theta / theta_L / Tajima_D / Zengs_E / Fst: no write through self, no alias of self or its '
+            'buffers, except S: oldmask = self.mask.copy(); self.mask_corners(); S = self.sum(); self.mask = oldmask; return S  '
+            '(mask_corners: self.mask.flat[0] = self.mask.flat[-1] = True)')
+    why = []
+    try:
+        tree = ast.parse(open(path).read())
+        cls = [n for n in tree.body if isinstance(n, ast.ClassDef) and n.name == 'Spectrum'][0]
+        meth = {}
+        for n in cls.body:
+            if isinstance(n, ast.FunctionDef):
+                if n.name in meth:
+                    why.append('method %s defined twice' % n.name)
+                meth[n.name] = n
+        def body(fn):
+            b_ = list(meth[fn].body)
+            if b_ and isinstance(b_[0], ast.Expr) and isinstance(b_[0].value, ast.Constant) and isinstance(b_[0].value.value, str):
+                b_ = b_[1:]
+            if meth[fn].decorator_list or [a.arg for a in meth[fn].args.args] != ['self'] or meth[fn].args.vararg or meth[fn].args.kwarg or meth[fn].args.kwonlyargs:
+                why.append('%s: signature is not (self)' % fn)
+            return b_
+        pure = ['S', 'pi', 'Watterson_theta', 'theta_L', 'Tajima_D', 'Zengs_E', 'Fst', 'sum']
+        for fn in ('pi', 'Watterson_theta', 'theta_L', 'Tajima_D', 'Zengs_E', 'Fst'):
+            w = []
+            if not _pure_stmts(body(fn), pure, w):
+                why += ['%s: %s' % (fn, x) for x in w]
+        # S: the one permitted protocol
+        b_ = body('S')
+        src = [ast.unparse(x) for x in b_]
+        if src != ['oldmask = self.mask.copy()', 'self.mask_corners()', 'S = self.sum()', 'self.mask = oldmask', 'return S']:
+            why.append('S: body is %r' % (src,))
+        if [ast.unparse(x) for x in body('mask_corners')] != ['self.mask.flat[0] = self.mask.flat[-1] = True']:
+            why.append('mask_corners: body is %r' % ([ast.unparse(x) for x in body('mask_corners')],))
+    except Exception as e:
+        why.append('%s: %s' % (type(e).__name__, e))
+    ctx.obligation(name, not why, 'translator', '; '.join(why)[:600])
+    return None if not why else (name, why)
 
 def run(ctx):
     ctx.rule = ('case = synthetic VCF text (1-3 populations of 2-12 diploids, extra unassigned samples, 4-40 lines; FILTER values; '
                 'lower-case / multi-character / * / multi-allelic REF and ALT; 20 kinds of AA annotation; FORMAT with GT/DP/AD in any order; '
                 './. and half-missing calls; repeated CHROM_POS; chromosome names with _ and .) + popinfo text (optional header, swapped '
                 'columns, comments, blank lines) + settings (filter, subsample, population order, projections, mask_corners, chunk size, '
-                'bootstraps, key suffixes, gzip/zip transport), all from one PRNG; distinct = distinct case text+settings; non-trivial = at least one usable SNP')
+                'bootstraps, key suffixes, gzip/zip transport) + per (projection kind requested/full, mask_corners False/True, polarised/folded) a call '
+                'sequence of the statistic methods (a different method first each time, every method repeated in another order, every method alone on a '
+                'fresh object) after each call of which the spectrum-level clauses are re-evaluated on the same object, all from one PRNG; '
+                'distinct = distinct case text+settings; non-trivial = at least one usable SNP')
     ctx.assumptions += ['spectra: float64 vs exact rational evaluation at 1e-11 x largest entry; statistics at 1e-10 x max(1,|value|)',
                         'the genotype strings are diploid with alleles 0/1/. (biallelic records only count 0 and 1)',
                         'Tajima D is compared only for n >= 4 chromosomes and S > 0 (for n = 2, 3 the variance term is 0 up to rounding)',
@@ -611,6 +857,10 @@ def run(ctx):
         if c['truth'] and not c['subsample'] and not c['truth']['inconsistent'] and 'snp_text' not in c:
             c['snp_text'] = snp_file_text(c, ctx.rng)
             c['snp_transport'] = ctx.rng.choice(['plain'] * 8 + ['gz', 'zip'])
+    for c in cases:
+        if 'stat_seqs' not in c:
+            c['stat_seqs'] = stat_seqs_for(c, ctx.rng)
+    broken_src = stat_source_obligation(ctx)
     batches = [cases[i:i + 100] for i in range(0, len(cases), 100)]
     for batch in batches:
         res = lib.run_impl('c13_impl.py', [slim(c) for c in batch], timeout=1800)
@@ -652,3 +902,8 @@ def run(ctx):
                                       data={'case': pub(c), 'impl': {k: v for k, v in r.items() if k not in ('chunk_fs', 'boots')}, 'coq': rr},
                                       key='model-mismatch:' + name.split(' (')[0].replace(' ', '-'),
                                       no_input=not c.get('_pred_viol'), broken='correspondence: ' + name)
+    if broken_src and not any(str(v['key'] or '').startswith('stats:') and not v['no_input'] for v in ctx.violations):
+        ctx.violation('the statistic methods of Spectrum are no longer recognised as leaving the spectrum untouched (%s); every call sequence of every case '
+                      '(mask_corners False/True, polarised/folded, every method first in turn, repeated, alone on a fresh object) left data, mask, total '
+                      'and the chunk-sum identity intact' % '; '.join(broken_src[1])[:300],
+                      data={'obligation': broken_src[0], 'why': broken_src[1]}, no_input=True, broken=broken_src[0])
